@@ -399,49 +399,49 @@ fn h_insert_3() {
 fn h_set_tombstones_3() {
     ck_set_tombstones(3);
 }
-//@ id=C16.e3.map.drop.cap2 props=C16,C05,C09 level=bounded tier=quick budget=900 bound="capacity 2, every liveness pattern (live / tombstone / empty per cell), live keys fixed distinct numbers, row numbers / start slots / argument symbolic" desc="drop(n): the keys of the first min(n, len) rows become tombstones, the others keep their cell and are renumbered by -n; free cells stay as they were; representation and numbering invariants preserved"
+//@ id=C16.e3.map.drop.cap2 props=C16,C09 level=bounded tier=quick budget=900 bound="capacity 2, every liveness pattern (live / tombstone / empty per cell), live keys fixed distinct numbers, row numbers / start slots / argument symbolic" desc="drop(n): the keys of the first min(n, len) rows become tombstones, the others keep their cell and are renumbered by -n; free cells stay as they were; representation and numbering invariants preserved"
 #[kani::proof]
 #[kani::unwind(6)]
 fn h_drop_2() {
     ck_rowop_all(2, 0);
 }
-//@ id=C16.e3.map.drop.cap3 props=C16,C05,C09 level=bounded tier=thorough budget=3000 bound="capacity 3, every liveness pattern (live / tombstone / empty per cell), live keys fixed distinct numbers, row numbers / start slots / argument symbolic" desc="drop(n): the keys of the first min(n, len) rows become tombstones, the others keep their cell and are renumbered by -n; free cells stay as they were; representation and numbering invariants preserved"
+//@ id=C16.e3.map.drop.cap3 props=C16,C09 level=bounded tier=thorough budget=3000 bound="capacity 3, every liveness pattern (live / tombstone / empty per cell), live keys fixed distinct numbers, row numbers / start slots / argument symbolic" desc="drop(n): the keys of the first min(n, len) rows become tombstones, the others keep their cell and are renumbered by -n; free cells stay as they were; representation and numbering invariants preserved"
 #[kani::proof]
 #[kani::unwind(7)]
 fn h_drop_3() {
     ck_rowop_all(3, 0);
 }
-//@ id=C16.e3.map.take.cap2 props=C16,C05,C09 level=bounded tier=quick budget=900 bound="capacity 2, every liveness pattern (live / tombstone / empty per cell), live keys fixed distinct numbers, row numbers / start slots / argument symbolic" desc="take(n): the keys of the rows from min(n, len) on become tombstones, the others are untouched; free cells stay as they were; representation and numbering invariants preserved"
+//@ id=C16.e3.map.take.cap2 props=C16,C09 level=bounded tier=quick budget=900 bound="capacity 2, every liveness pattern (live / tombstone / empty per cell), live keys fixed distinct numbers, row numbers / start slots / argument symbolic" desc="take(n): the keys of the rows from min(n, len) on become tombstones, the others are untouched; free cells stay as they were; representation and numbering invariants preserved"
 #[kani::proof]
 #[kani::unwind(6)]
 fn h_take_2() {
     ck_rowop_all(2, 1);
 }
-//@ id=C16.e3.map.take.cap3 props=C16,C05,C09 level=bounded tier=thorough budget=3000 bound="capacity 3, every liveness pattern (live / tombstone / empty per cell), live keys fixed distinct numbers, row numbers / start slots / argument symbolic" desc="take(n): the keys of the rows from min(n, len) on become tombstones, the others are untouched; free cells stay as they were; representation and numbering invariants preserved"
+//@ id=C16.e3.map.take.cap3 props=C16,C09 level=bounded tier=thorough budget=3000 bound="capacity 3, every liveness pattern (live / tombstone / empty per cell), live keys fixed distinct numbers, row numbers / start slots / argument symbolic" desc="take(n): the keys of the rows from min(n, len) on become tombstones, the others are untouched; free cells stay as they were; representation and numbering invariants preserved"
 #[kani::proof]
 #[kani::unwind(7)]
 fn h_take_3() {
     ck_rowop_all(3, 1);
 }
-//@ id=C16.e3.map.reverse.cap2 props=C16,C05,C09 level=bounded tier=quick budget=900 bound="capacity 2, every liveness pattern (live / tombstone / empty per cell), live keys fixed distinct numbers, row numbers / start slots / argument symbolic" desc="reverse: every key keeps its cell and names row len-1-r; free cells stay as they were; representation and numbering invariants preserved"
+//@ id=C16.e3.map.reverse.cap2 props=C16,C09 level=bounded tier=quick budget=900 bound="capacity 2, every liveness pattern (live / tombstone / empty per cell), live keys fixed distinct numbers, row numbers / start slots / argument symbolic" desc="reverse: every key keeps its cell and names row len-1-r; free cells stay as they were; representation and numbering invariants preserved"
 #[kani::proof]
 #[kani::unwind(6)]
 fn h_reverse_2() {
     ck_rowop_all(2, 2);
 }
-//@ id=C16.e3.map.reverse.cap3 props=C16,C05,C09 level=bounded tier=thorough budget=3000 bound="capacity 3, every liveness pattern (live / tombstone / empty per cell), live keys fixed distinct numbers, row numbers / start slots / argument symbolic" desc="reverse: every key keeps its cell and names row len-1-r; free cells stay as they were; representation and numbering invariants preserved"
+//@ id=C16.e3.map.reverse.cap3 props=C16,C09 level=bounded tier=thorough budget=3000 bound="capacity 3, every liveness pattern (live / tombstone / empty per cell), live keys fixed distinct numbers, row numbers / start slots / argument symbolic" desc="reverse: every key keeps its cell and names row len-1-r; free cells stay as they were; representation and numbering invariants preserved"
 #[kani::proof]
 #[kani::unwind(7)]
 fn h_reverse_3() {
     ck_rowop_all(3, 2);
 }
-//@ id=C16.e3.map.rotate.cap2 props=C16,C05,C09 level=bounded tier=quick budget=900 bound="capacity 2, every liveness pattern (live / tombstone / empty per cell), live keys fixed distinct numbers, row numbers / start slots / argument symbolic" desc="rotate(by), any isize: every key keeps its cell and names row (r - by) mod len; free cells stay as they were; representation and numbering invariants preserved"
+//@ id=C16.e3.map.rotate.cap2 props=C16,C09 level=bounded tier=quick budget=900 bound="capacity 2, every liveness pattern (live / tombstone / empty per cell), live keys fixed distinct numbers, row numbers / start slots / argument symbolic" desc="rotate(by), any isize: every key keeps its cell and names row (r - by) mod len; free cells stay as they were; representation and numbering invariants preserved"
 #[kani::proof]
 #[kani::unwind(6)]
 fn h_rotate_2() {
     ck_rowop_all(2, 3);
 }
-//@ id=C16.e3.map.rotate.cap3 props=C16,C05,C09 level=bounded tier=thorough budget=3000 bound="capacity 3, every liveness pattern (live / tombstone / empty per cell), live keys fixed distinct numbers, row numbers / start slots / argument symbolic" desc="rotate(by), any isize: every key keeps its cell and names row (r - by) mod len; free cells stay as they were; representation and numbering invariants preserved"
+//@ id=C16.e3.map.rotate.cap3 props=C16,C09 level=bounded tier=thorough budget=3000 bound="capacity 3, every liveness pattern (live / tombstone / empty per cell), live keys fixed distinct numbers, row numbers / start slots / argument symbolic" desc="rotate(by), any isize: every key keeps its cell and names row (r - by) mod len; free cells stay as they were; representation and numbering invariants preserved"
 #[kani::proof]
 #[kani::unwind(7)]
 fn h_rotate_3() {
